@@ -36,6 +36,12 @@ STATEMENTS = {
     "pow_two_even": "C07: 2 <= 2^k  =>  2^k even (the degree handed to a child meets the step's precondition)",
     "tower_sound": "C07: induction over the tree of rotated cones: the emitted cones imply  d x <= sum_i wt_i R_i  (log domain), wt = the halving weights",
     "tower_exact": "C07: induction over the tree: every point with  d x <= sum_i wt_i R_i  extends to the whole tower",
+    "cone_form_exp": "M5: exp x <= t  <=>  (x, t, 1) in K_exp",
+    "cone_form_log": "M5: x > 0: t <= log x  <=>  (t, x, 1) in K_exp",
+    "cone_form_plog": "M5: x, s > 0: t <= s log(x/s)  <=>  (t, x, s) in K_exp",
+    "cone_form_entropy": "M5: x > 0: u <= -x log x  <=>  (u, 1, x) in K_exp",
+    "cone_form_kl": "M5: p, q > 0: p log(p/q) <= u  <=>  (-u/q, 1, p/q) in K_exp",
+    "cone_form_softplus": "M5: log(1 + exp x) <= t  <=>  exists a, b: (x-t, a, 1), (-t, b, 1) in K_exp, a + b <= 1",
     "card_of_range": "A-CARD of engine LV: a finite set of naturals equal to {0..m-1} has m elements",
 }
 
